@@ -417,6 +417,9 @@ func (p *streamPool) getOrOpenStream() (*Stream, error) {
 				return stream, nil
 			}
 		}
+		// a pooled stream that was closed by the peer meanwhile (or whose session died) is discarded:
+		// close it, otherwise it stays in the session's stream table for ever
+		stream.Close()
 	}
 
 	stream, err := p.Session().OpenStream()
